@@ -96,6 +96,8 @@ fn main() -> Result<(), anyhow::Error> {
     let mut number_of_operands_read = 0_usize;
     let mut number_of_operands_succesfully_transformed = 0_usize;
     let mut number_of_dimensions_in_input = 0;
+    // The number of output decimals: as given, or else guessed once, from the first batch
+    let mut decimals = options.decimals;
     let mut operands = Vec::new();
     let start = time::Instant::now();
 
@@ -150,6 +152,7 @@ fn main() -> Result<(), anyhow::Error> {
                     &options,
                     op,
                     number_of_dimensions_in_input,
+                    &mut decimals,
                     &mut operands,
                     &ctx,
                 )?;
@@ -163,6 +166,7 @@ fn main() -> Result<(), anyhow::Error> {
         &options,
         op,
         number_of_dimensions_in_input,
+        &mut decimals,
         &mut operands,
         &ctx,
     )?;
@@ -178,6 +182,7 @@ fn transform(
     options: &Cli,
     op: OpHandle,
     number_of_dimensions_in_input: usize,
+    decimals: &mut Option<usize>,
     operands: &mut Vec<Coor4D>,
     ctx: &Plain,
 ) -> Result<usize, geodesy::Error> {
@@ -232,9 +237,8 @@ fn transform(
     // the first coordinate is larger than 1000, the output is most
     // probably not in degrees. Hence give 5 decimals for linear units,
     // 10 for angular
-    let decimals = options
-        .decimals
-        .unwrap_or(if operands[0][0] > 1000. { 5 } else { 10 });
+    // The guess is made once, so all batches of a run are printed alike
+    let decimals = *decimals.get_or_insert(if operands[0][0] > 1000. { 5 } else { 10 });
 
     // Finally output the transformed coordinates
     for coord in operands {
